@@ -37,9 +37,23 @@ META = dict(
 )
 
 
-def _form_hash(f):
+def _form_hash(f, m=None, depth=0):
     """('canonical'|'fields'|'initargs'|'unknown', detail)"""
     rets = [n for n in ast.walk(f.node) if isinstance(n, ast.Return)]
+    # explicit delegation: `return <Class>.__hash__(self)` / `return super().__hash__()`
+    if m is not None and depth < 4 and len(rets) == 1 and isinstance(rets[0].value, ast.Call) and isinstance(rets[0].value.func, ast.Attribute) \
+            and rets[0].value.func.attr == '__hash__':
+        base = rets[0].value.func.value
+        tgt = None
+        if isinstance(base, ast.Name):
+            from sa.model import ClassInfo
+            got = m.resolve(f.module, base.id)
+            if isinstance(got, ClassInfo):
+                tgt = m.member_function(got, '__hash__')
+        elif isinstance(base, ast.Call) and isinstance(base.func, ast.Name) and base.func.id == 'super' and f.cls is not None:
+            tgt = m.member_function(f.cls, '__hash__', after=f.cls)
+        if tgt is not None:
+            return _form_hash(tgt, m, depth + 1)
     if f.module.name.startswith('pymbolic'):
         return 'initargs', 'pymbolic Expression.get_hash: (type name,) + __getinitargs__()'
     if len(rets) != 1 or not isinstance(rets[0].value, ast.Call) or X.call_name_of(rets[0].value) != 'hash':
@@ -102,7 +116,7 @@ def run(ctx):
             cur = nxt
             chain.append(cur.qualname)
             eform, edet = _form_eq(cur)
-        hform, hdet = _form_hash(hf)
+        hform, hdet = _form_hash(hf, m)
         facts = {'eq': chain, 'eq_form': eform, 'eq_detail': edet, 'hash': hf.qualname, 'hash_form': hform, 'hash_detail': hdet}
         inst = c.name
         # R3: loki implementation selected
